@@ -43,6 +43,9 @@ impl fmt::Write for HashW {
     }
 }
 
+/// when set, the injected failure of a `Rec` is a panic instead of an error
+static SER_PANICS: std::sync::atomic::AtomicBool = std::sync::atomic::AtomicBool::new(false);
+struct SerPanic(usize);
 #[derive(Clone, Copy)]
 pub struct Rec<'a> {
     /// one entry per serializer call: hash of (method, arguments); capacity reserved up front
@@ -62,6 +65,11 @@ impl<'a> Rec<'a> {
             l.push(h.0.finish());
         }
         if l.len() == self.fail_at {
+            if SER_PANICS.load(std::sync::atomic::Ordering::SeqCst) {
+                let k = l.len();
+                drop(l);
+                std::panic::panic_any(SerPanic(k));
+            }
             Err(SErr::Injected(l.len()))
         } else {
             Ok(())
@@ -520,6 +528,68 @@ fn ser_case<T: Serialize + Clone + PartialEq + fmt::Debug>(name: &str, v: &T, ou
     }
 }
 
+/// the serializer panics at its k-th call: the unwind comes out at the same call as for the value, the handle is an
+/// observer all the same (count untouched, nothing allocated and left)
+fn ser_panic_case<T: Serialize + Clone + PartialEq + fmt::Debug>(name: &str, v: &T, out: &mut Vec<Value>) {
+    use std::panic::{catch_unwind, AssertUnwindSafe};
+    use std::sync::atomic::Ordering::SeqCst;
+    let base = RefCell::new(Vec::with_capacity(4096));
+    let _ = v.serialize(Rec { log: &base, fail_at: 0, hr: true });
+    let ncalls = base.borrow().len();
+    let prev = std::panic::take_hook();
+    std::panic::set_hook(Box::new(|_| {}));
+    let pk = |r: std::thread::Result<bool>| match r {
+        Err(e) => e.downcast_ref::<SerPanic>().map(|d| d.0 as i64).unwrap_or(-1),
+        Ok(_) => -2,
+    };
+    for kind in ["arc", "arc_shared", "unique"] {
+        for k in 1..=ncalls {
+            let lv = RefCell::new(Vec::with_capacity(4096));
+            SER_PANICS.store(true, SeqCst);
+            let rv = pk(catch_unwind(AssertUnwindSafe(|| v.serialize(Rec { log: &lv, fail_at: k, hr: true }).is_ok())));
+            SER_PANICS.store(false, SeqCst);
+            alloc::reset();
+            ev::LOG.clear();
+            let lh = RefCell::new(Vec::with_capacity(4096));
+            alloc::track(true);
+            let (rh, c0, c1, live0, live1);
+            match kind {
+                "unique" => {
+                    let u = UniqueArc::new(v.clone());
+                    live0 = live_blocks();
+                    c0 = 1;
+                    SER_PANICS.store(true, SeqCst);
+                    rh = pk(catch_unwind(AssertUnwindSafe(|| u.serialize(Rec { log: &lh, fail_at: k, hr: true }).is_ok())));
+                    SER_PANICS.store(false, SeqCst);
+                    live1 = live_blocks();
+                    c1 = Arc::count(&u.shareable());
+                }
+                _ => {
+                    let a = Arc::new(v.clone());
+                    let other = if kind == "arc_shared" { Some(a.clone()) } else { None };
+                    live0 = live_blocks();
+                    c0 = Arc::count(&a);
+                    SER_PANICS.store(true, SeqCst);
+                    rh = pk(catch_unwind(AssertUnwindSafe(|| a.serialize(Rec { log: &lh, fail_at: k, hr: true }).is_ok())));
+                    SER_PANICS.store(false, SeqCst);
+                    live1 = live_blocks();
+                    c1 = Arc::count(&a);
+                    drop(other);
+                }
+            }
+            alloc::track(false);
+            let leaked = live_blocks();
+            let same_calls = *lh.borrow() == *lv.borrow();
+            out.push(json!({"op": "ser", "payload": format!("{} (the serializer panics)", name), "kind": kind, "k": k, "ncalls": ncalls, "human_readable": 1,
+                            "same_calls": same_calls as u8, "same_result": (rh == rv && rv == k as i64) as u8,
+                            "count_before": c0, "count_after": c1, "live_delta": live1 as i64 - live0 as i64, "leaked": leaked,
+                            "detail": format!("handle unwinds at {}, value at {}", rh, rv)}));
+            alloc::reset();
+        }
+    }
+    std::panic::set_hook(prev);
+}
+
 fn de_case<T: for<'de> Deserialize<'de> + PartialEq + fmt::Debug>(name: &str, toks: &[Tok], out: &mut Vec<Value>) {
     let (p0, c0) = (Cell::new(0), Cell::new(0));
     let _ = T::deserialize(&mut De { toks, pos: &p0, calls: &c0, fail_at: 0, hr: true });
@@ -760,6 +830,9 @@ pub fn run(out_path: &str) {
     ser_case("() (zero-sized)", &(), &mut out);
     ser_case("((), UnitS)", &((), UnitS), &mut out);
     ser_case("Vec<Outer>", &vec![outer.clone(), outer.clone()], &mut out);
+    ser_panic_case("(u32,String)", &(5u32, String::from("t")), &mut out);
+    ser_panic_case("Outer", &outer, &mut out);
+    ser_panic_case("Vec<u16>", &vec![1u16, 2, 3], &mut out);
     use Tok::*;
     de_case::<u64>("u64", &[U64(42)], &mut out);
     de_case::<String>("String", &[Str("hello".into())], &mut out);
